@@ -165,6 +165,8 @@ pub struct World {
 	pub bogus_reestablish: BTreeMap<(usize, usize), u32>,
 	/// per node: manager writes suspended (the durable manager lags behind)
 	pub manager_write_held: Vec<bool>,
+	/// per node: switched off (not told about blocks, events not handled)
+	pub offline: Vec<bool>,
 	/// per node: last update id handed to Persist per channel (live), and as of the last manager write
 	pub live_ids: Vec<BTreeMap<ChannelId, u64>>,
 	pub mgr_known_ids: Vec<BTreeMap<ChannelId, u64>>,
@@ -204,6 +206,7 @@ impl World {
 			intercept_skim_msat: None,
 			bogus_reestablish: BTreeMap::new(),
 			manager_write_held: vec![false; n],
+			offline: vec![false; n],
 			live_ids: vec![BTreeMap::new(); n],
 			mgr_known_ids: vec![BTreeMap::new(); n],
 			mgr_known_open: vec![Vec::new(); n],
@@ -563,7 +566,9 @@ impl World {
 
 	pub fn sync_all(&mut self) {
 		for i in 0..self.nodes.len() {
-			self.sync_node(i);
+			if !self.offline[i] {
+				self.sync_node(i);
+			}
 		}
 	}
 
@@ -572,7 +577,7 @@ impl World {
 		for _ in 0..4 {
 			let mut any = false;
 			for i in 0..self.nodes.len() {
-				if !skip.get(i).copied().unwrap_or(false) && self.nodes[i].has_events() {
+				if !skip.get(i).copied().unwrap_or(false) && !self.offline[i] && self.nodes[i].has_events() {
 					self.handle_events(i);
 					any = true;
 				}
